@@ -37,7 +37,9 @@ impl RaftIndexInnerManager {
             .await?;
         let meta = file.metadata().await?;
         //log::info!("index file len:{}",meta.len());
-        let (last_applied_log, raft_index) = if meta.len() <= 20 {
+        // the initial write below leaves 8 bytes of last_applied plus an empty record (9 bytes);
+        // anything longer holds a real record, however short, and must be read back
+        let (last_applied_log, raft_index) = if meta.len() <= 9 {
             //init write
             let index = RaftIndex::default();
             /*
